@@ -406,6 +406,16 @@ func (cs *Contracts) parseFile(path, src string) error {
 				return fmt.Errorf("%s:%d: %v", path, ln, err)
 			}
 			cur.Loops[key] = append(cur.Loops[key], cl)
+		case "at-eval":
+			cl, err := parseClause(rest)
+			if err != nil {
+				return fmt.Errorf("%s:%d: %v", path, ln, err)
+			}
+			ae := &AtEval{Label: cl.Label, Text: cl.Text, Cond: &EBool{true}, Body: cl.Expr}
+			if b, ok := cl.Expr.(*EBinary); ok && b.Op == "==>" {
+				ae.Cond, ae.Body = b.X, b.Y
+			}
+			cur.AtEvals = append(cur.AtEvals, ae)
 		case "property":
 			cur.Props = append(cur.Props, strings.Fields(rest)...)
 		case "exact":
